@@ -36,7 +36,10 @@ def spell(sp, eletter="e-", sprefix="#"):
     if sp["k"] == "grain":
         return f"GRAIN{sp.get('g', 0)}{ch}"
     body = "".join(sym + (str(n) if n != 1 else "") for sym, n in sp["t"])
-    return f"{sprefix if sp.get('s') else ''}{sp.get('l', '')}{body}{ch}"
+    x = sp.get("x", "")  # excited-state marker '*' (suffix) or cyclic / linear marker 'c-' / 'l-' (prefix)
+    pre_x = x if x in ("c-", "l-") else ""
+    suf_x = x if x == "*" else ""
+    return f"{sprefix if sp.get('s') else ''}{sp.get('l', '')}{pre_x}{body}{suf_x}{ch}"
 
 
 def composition(sp):
@@ -58,7 +61,7 @@ def identity(sp):
         return ("e",)
     if sp["k"] == "grain":
         return ("grain", sp.get("g", 0), sp.get("q", 0))
-    return ("mol", tuple(tuple(t) for t in sp["t"]), sp.get("q", 0), bool(sp.get("s")), sp.get("l", ""))
+    return ("mol", tuple(tuple(t) for t in sp["t"]), sp.get("q", 0), bool(sp.get("s")), sp.get("l", "") + sp.get("x", ""))
 
 
 # ------------------------------------------------------------------------------------ strategies
@@ -109,6 +112,12 @@ def species_pool(draw, min_size=2, max_size=10, elements=None, with_ice=True, wi
         add({"k": "e"})
     if with_grain and draw(st.integers(0, 5)) == 0:
         add({"k": "grain", "g": 0, "q": draw(st.sampled_from([0, 0, -1, 1]))})
+    if draw(st.integers(0, 7)) == 0:
+        # an excited / cyclic state next to its ground state (H2 and H2*, C3H2 and c-C3H2): two species, two slots
+        base = draw(gas_molecule(elements, max_tokens=2, allow_label=False, charges=(0,)))
+        if sum(c for _, c in base["t"]) >= 2:
+            add(base)
+            add(dict(base, t=[list(t) for t in base["t"]], x=draw(st.sampled_from(["*", "*", "c-", "l-"]))))
     tries = 0
     while len(pool) < n and tries < 4 * n:
         tries += 1
@@ -248,8 +257,20 @@ def balanced_network(draw, max_reactions=10):
     reactions = []
     nre = draw(st.integers(1, max_reactions))
     for _ in range(nre):
-        kind = draw(st.sampled_from(["gas", "gas", "gas", "ion", "ion", "freeze", "desorb", "surface"]))
-        if kind in ("freeze", "desorb"):
+        kind = draw(st.sampled_from(["gas", "gas", "gas", "ion", "ion", "freeze", "desorb", "surface", "excite"]))
+        if kind == "excite":
+            # X* -> X (de-excitation) or X + M -> X* + M (collisional excitation): balanced, two distinct species
+            base = draw(gas_molecule(elements, max_tokens=2, allow_label=False, charges=(0,)))
+            if sum(c for _, c in base["t"]) < 2:
+                base["t"] = [["H", 2]]
+            g = intern(base)
+            x = intern(dict(base, t=[list(t) for t in base["t"]], x="*"))
+            if draw(st.booleans()) or not pool:
+                r, p = [x], [g]
+            else:
+                m = draw(st.sampled_from([i for i in range(len(pool)) if not pool[i].get("s")]))
+                r, p = [g, m], [x, m]
+        elif kind in ("freeze", "desorb"):
             toks = draw(st.sampled_from(ICE_SAFE))
             g, ice = intern(_mol(toks)), intern(_mol(toks, s=True))
             r, p = ([g], [ice]) if kind == "freeze" else ([ice], [g])
